@@ -119,6 +119,38 @@ def generate():
     ttail = tbody[tbody.index("return temp;"):] if "return temp;" in tbody else tbody
     tlabels = split_labels(ttail, TEMP_ACTIONS)
 
+    # libxmp_virt_on: which of the counts it sets before allocating are zeroed again by the block that every
+    # failure path ends in (the last label block, reached by fall-through)
+    virt = open(os.path.join(vlib.REPO, "src", "virtual.c")).read()
+    vbody = function_body(virt, r"^int libxmp_virt_on\s*\(")
+    vtail = vbody[vbody.rindex("return 0;"):] if "return 0;" in vbody else ""
+    vlabels = list(re.finditer(r"^\s*(\w+):\s*$", vtail, re.M))
+    vzero = []
+    if vlabels:
+        last = vtail[vlabels[-1].end():]
+        for st in last.split(";"):
+            st = " ".join(st.split())
+            if re.search(r"=\s*0$", st):
+                vzero += re.findall(r"p->virt\.(\w+)\s*=", st)
+    vzero = sorted(set(vzero))
+
+    # xmp_smix_load_sample: does the commit release what the slot held before?
+    smix = open(os.path.join(vlib.REPO, "src", "smix.c")).read()
+    sbody = function_body(smix, r"^int xmp_smix_load_sample\s*\(")
+    smix_rel = re.search(r"\bxmp_smix_release_sample\s*\(\s*opaque\s*,\s*num\s*\)", sbody) is not None
+    # ... and is the slot written only after the last failure branch (no `xxi->`/`xxs->` assignment before it)?
+    last_goto = max([m.end() for m in re.finditer(r"\bgoto\s+\w+\s*;", sbody)] or [0])
+    smix_early = sorted(set(re.findall(r"\b(xx[is]->\w+)\s*(?:\[[^\]]*\]\s*\.\s*\w+\s*)?[+-]?=[^=]", sbody[:last_goto])))
+
+    # hio_reopen_mem / hio_reopen_file: do they bail out when closing the old stream reports an error?
+    hio = open(os.path.join(vlib.REPO, "src", "hio.c")).read()
+    reopen_bails = []
+    for fn in ("hio_reopen_mem", "hio_reopen_file"):
+        b = function_body(hio, r"^int %s\s*\(" % fn)
+        m = re.search(r"(\w+)\s*=\s*hio_close_internal\s*\(\s*h\s*\)\s*;\s*if\s*\(\s*\1\s*<\s*0\s*\)", b)
+        if m or not re.search(r"hio_close_internal\s*\(\s*h\s*\)", b):
+            reopen_bails.append(fn)
+
     txt = ["/-! GENERATED by tools/gen_c04.py from /repo/src/player.c (xmp_start_player) and /repo/src/tempfile.c",
            "(make_temp_file) - do not edit.  Regenerated on every run of the C04 check.",
            "",
@@ -138,11 +170,27 @@ def generate():
            "/-- make_temp_file label blocks (fall through downwards) -/",
            "def tempLabels : List (String × List String) :=",
            "  [" + ", ".join("(%s, [%s])" % (lean_str(l), ", ".join(lean_str(a) for a in acts)) for l, acts, _ in tlabels) + "]",
+           "",
+           "/-- members of `p->virt` that the block every failure path of libxmp_virt_on ends in sets to 0 -/",
+           "def virtOnFailZeroes : List String :=",
+           "  [" + ", ".join(lean_str(z) for z in vzero) + "]",
+           "",
+           "/-- xmp_smix_load_sample releases the previous contents of the slot before it stores the new ones -/",
+           "def smixLoadReleasesOld : Bool := " + lean_bool(smix_rel),
+           "",
+           "/-- members of the slot (`xxi->…`, `xxs->…`) that xmp_smix_load_sample assigns before its last failure branch -/",
+           "def smixLoadEarlyWrites : List String :=",
+           "  [" + ", ".join(lean_str(z) for z in smix_early) + "]",
+           "",
+           "/-- hio_reopen_mem and hio_reopen_file switch the handle to the new stream whatever closing the old one reported -/",
+           "def reopenIgnoresCloseResult : Bool := " + lean_bool(not reopen_bails),
            "", "end Xmp.Gen.StartCfg", ""]
     path = os.path.join(vlib.LEAN, "XmpModel", "Gen", "StartCfg.lean")
     changed = vlib.write_if_changed(path, "\n".join(txt))
     return {"changed": changed, "startSites": [(n, l, r) for n, l, r, _ in sites], "startLabels": labels,
-            "tempSites": [(n, l) for n, l, _ in tsites], "tempLabels": [(l, a) for l, a, _ in tlabels]}
+            "tempSites": [(n, l) for n, l, _ in tsites], "tempLabels": [(l, a) for l, a, _ in tlabels],
+            "virtOnFailZeroes": vzero, "smixLoadReleasesOld": smix_rel, "smixLoadEarlyWrites": smix_early,
+            "reopenBailsOnCloseFailure": reopen_bails}
 
 
 if __name__ == "__main__":
